@@ -64,9 +64,9 @@ class WFSA(base.WFSA):
         self = self.epsremove.renumber
 
         S = self.dim
-        start = np.full(S, self.R.zero)
-        arcs = {a: np.full((S, S), self.R.zero) for a in self.alphabet}
-        stop = np.full(S, self.R.zero)
+        start = np.full(S, self.R.zero, dtype=float)
+        arcs = {a: np.full((S, S), self.R.zero, dtype=float) for a in self.alphabet}
+        stop = np.full(S, self.R.zero, dtype=float)
 
         for i, w in self.I:
             start[i] += w
